@@ -611,6 +611,23 @@ class Issuer:
       raise ValueError(kind)
     return out
 
+  def twins(self, r, reuse=False):
+    """A signature and its malleated twin (r, n - s) on the same hash: both
+    verify, both are well-formed (s in [1, n-1]); optionally a second message
+    signed with the same nonce (equal r, unrelated s) and its twin as well."""
+    n = int(self.c.n)
+    k = r.randrange(1, n)
+    out = [self.make(r, k, "malleated_twin", False)]
+    if reuse:
+      out.append(self.make(r, k, "malleated_twin", False))
+      if h2i(out[1]["r"]) != h2i(out[0]["r"]):
+        out.pop()
+    for a in list(out):
+      b = dict(a, truth=dict(a["truth"]))
+      b["s"] = i2h(n - h2i(a["s"]))
+      out.append(b)
+    return out
+
   def u2f(self, r, count=2, negative=False):
     """Nonces of the form abababab cdcdcdcd ... (one byte per 32-bit word);
     negative=True uses n - K for some of them (still valid nonces; the
